@@ -302,6 +302,14 @@ struct MemSys {
         out.append((const char *)&el, 8);
         out += (char)(w.m.writes % 3);
         canonNode(w.hdr.nodes.head, out);
+        // The reference model is part of the state: if the implementation ever diverges from it, the pair
+        // (real, model) is a new state even when the real half alone was seen before, so it gets observed.
+        out += "|M";
+        for (auto &r : w.m.runs) {
+            out.append((const char *)&r.s, 8);
+            out.append((const char *)&r.e, 8);
+            out += (char)r.salt;
+        }
     }
 
     int depthOf(const SplayNode<mem_node *> *n) { return n ? 1 + std::max(depthOf(n->left), depthOf(n->right)) : 0; }
